@@ -12,3 +12,4 @@ from . import c_producers   # noqa
 from . import c_conversion  # noqa
 from . import c_headers_write  # noqa
 from . import c_reader_init  # noqa
+from . import c_export  # noqa
